@@ -23,3 +23,17 @@ pub(crate) use kzg10::Commitment;
 pub use kzg10::PublicParameters;
 #[cfg(feature = "alloc")]
 pub(crate) use kzg10::{CommitKey, OpeningKey};
+
+/// Verification hook: build a KZG opening proof from its parts.
+#[cfg(feature = "verif")]
+pub(crate) fn kzg10_proof(
+    commitment_to_witness: Commitment,
+    evaluated_point: dusk_bls12_381::BlsScalar,
+    commitment_to_polynomial: Commitment,
+) -> kzg10::proof::Proof {
+    kzg10::proof::Proof {
+        commitment_to_witness,
+        evaluated_point,
+        commitment_to_polynomial,
+    }
+}
